@@ -3,7 +3,7 @@
     distinct unified inputs + all-tied) always answers, with a score that is at most the score of every input
     ranking completed with its missing elements in a last bucket and of the all-tied ranking. *)
 From Corankco Require Import Prelude Scheme Rank KemenySpec CostTable CostTableProof OptTheory Markov MarkovProof Borda BordaProof
-     BioConsert BioDelta Judge.JBio BioMoves BioArrays BioLoop BioAlgo ConsistentProof PartitionProof KemenyCount ILPProof.
+     BioConsert BioDelta Judge.JBio BioProof BioMoves BioArrays BioLoop BioAlgo ConsistentProof PartitionProof KemenyCount ILPProof.
 Local Open Scope Z_scope.
 
 (** the score of a vector over ids, for the table of the dataset, is a sum over the pairs of elements *)
@@ -126,4 +126,60 @@ Proof.
     assert (Nc : NoDup (elems c0)) by (eapply Permutation_NoDup; [symmetry; exact P|apply universe_NoDup]).
     rewrite <- (vec_of_score s D c0 Hv Nc P). apply Le. unfold deps, departures_from.
     destruct (dedup_vecs_complete (map (vec_of U) starts) [] (vec_of U c0)) as [[]|H]; [|exact H]. apply in_map. exact Hc0.
+Qed.
+
+(** * C08 in the terms of the statement: rankings over the elements *)
+(** the ranking over elements that a position function over ids denotes *)
+Definition relabel (U : list nat) (r : ranking) : ranking := map (map (fun i => nth i U 0%nat)) r.
+
+Lemma relabel_score s D (p : posf) :
+  valid s -> let U := universe D in
+  kemeny_spec s D (relabel U (rank_of (seq 0 (length U)) p)) = scoref (cost_table s D) (seq 0 (length U)) p.
+Proof.
+  intros Hv U. set (n := length U). set (r := rank_of (seq 0 n) p).
+  destruct (rank_of_spec (seq 0 n) p (seq_NoDup n 0)) as (Pr & _ & Cr). fold r in Pr, Cr.
+  assert (NU : NoDup U) by apply universe_NoDup.
+  assert (Pe : Permutation (elems (relabel U r)) U).
+  { unfold elems, relabel. rewrite <- concat_map. etransitivity; [apply Permutation_map; exact Pr|]. rewrite map_nth_seq'. reflexivity. }
+  assert (Nd : NoDup (concat (relabel U r))) by (eapply Permutation_NoDup; [symmetry; exact Pe|exact NU]).
+  (* bucket ids are transported by the relabelling *)
+  assert (Bid : forall i, (i < n)%nat -> bucket_id (relabel U r) (nth i U 0%nat) = bucket_id r i).
+  { intros i Hi. assert (Hin : In i (concat r)) by (eapply Permutation_in; [symmetry; exact Pr|apply in_seq; lia]).
+    pose proof (bid_lt r 0 i Hin) as Bl. set (j := Z.to_nat (bid_from 0 r i)).
+    pose proof (in_nth_bucket r 0 i ltac:(lia) Hin) as Hb. replace (Z.to_nat (bid_from 0 r i - 0)) with j in Hb by (unfold j; lia).
+    unfold bucket_id. rewrite (bid_of_bucket (relabel U r) 0 j (nth i U 0%nat) Nd); [unfold j; lia| |unfold relabel; rewrite map_length; unfold j; lia].
+    unfold relabel. set (f := fun i0 : nat => nth i0 U 0%nat).
+    change (In (f i) (nth j (map (map f) r) (map f []))). rewrite (map_nth (map f) r [] j). apply (in_map f). exact Hb. }
+  rewrite <- score_cost_spec. rewrite (score_on_universe (cost_spec s D) U (relabel U r) (cost_spec_mirror' s D Hv) Pe).
+  unfold scoref. rewrite <- (map_nth_seq' U) at 1. fold n. rewrite ordpairs_map, map_map. apply zsum_map_ext. intros [i j] Hij. cbn [fst snd].
+  apply ordpairs_seq_lt in Hij. unfold pickf. rewrite (cost_table_spec s D i j Hv) by (fold U n; lia). fold U.
+  rewrite !Bid by lia. rewrite (Cr i j) by (apply in_seq; lia). reflexivity.
+Qed.
+
+(** no single-element move of a returned ranking - into another existing bucket or into a new bucket at any
+    position - lowers its generalized Kemeny score by more than the threshold *)
+Theorem bioconsert_local_optimum s D one deps sc rs fuel :
+  valid s -> let U := universe D in let n := length U in let K := cost_table s D in
+  (0 < n)%nat -> deps <> [] -> Forall (fun d => exists m, DenseTo n d m) deps ->
+  bioconsert_on fuel one s D deps = Some (sc, rs) ->
+  forall c, In c rs -> exists v, c = decode_vec U v /\ kemeny_spec s D c = sc /\
+    forall e, (e < n)%nat ->
+      (forall b, 0 <= b <= vmax v -> kemeny_spec s D c - THR <= kemeny_spec s D (relabel U (moved_ranking n v e (2 * b)))) /\
+      (forall p, 0 <= p <= vmax v + 1 -> kemeny_spec s D c - THR <= kemeny_spec s D (relabel U (moved_ranking n v e (2 * p - 1)))).
+Proof.
+  intros Hv U n K Hn Hne HDs E c Hc. subst U n K.
+  destruct (bioconsert_on_spec fuel one s D deps sc rs Hv Hn Hne HDs E) as (_ & _ & _ & H).
+  destruct (H c Hc) as (v & m & -> & HD & Es & LO). exists v. split; [reflexivity|].
+  pose proof (decode_vec_score s D v m Hv Hn HD) as Ed.
+  assert (Ek : kemeny_spec s D (decode_vec (universe D) v) = sc) by (rewrite Ed; exact Es).
+  split; [exact Ek|]. intros e He.
+  unfold local_opt in LO. rewrite forallb_forall in LO. specialize (LO e ltac:(apply in_seq; lia)). apply andb_true_iff in LO as [L1 L2].
+  rewrite forallb_forall in L1, L2.
+  assert (S0 : scoref (cost_table s D) (seq 0 (length (universe D))) (base v) = kemeny_spec s D (decode_vec (universe D) v)).
+  { rewrite Ek, <- Es. symmetry. apply score_vec_scoref. }
+  unfold moved_ranking. split.
+  - intros b Hb. specialize (L1 (Z.to_nat b) ltac:(apply in_seq; lia)). rewrite Z2Nat.id in L1 by lia. apply Z.leb_le in L1.
+    pose proof (relabel_score s D (moved v e (2 * b)) Hv) as Er. cbv zeta in Er. rewrite Er, <- S0. exact L1.
+  - intros p Hp. specialize (L2 (Z.to_nat p) ltac:(apply in_seq; lia)). rewrite Z2Nat.id in L2 by lia. apply Z.leb_le in L2.
+    pose proof (relabel_score s D (moved v e (2 * p - 1)) Hv) as Er. cbv zeta in Er. rewrite Er, <- S0. exact L2.
 Qed.
